@@ -175,6 +175,10 @@ func c26Verify(path, ser string, pre *c26Prefix, calls []c26Call, results []erro
 			sinceGrounding = 0
 		}
 	}
+	if sinceGrounding >= auditlog.GroundingBlockSize {
+		// the grounding is written under the same lock as the entry that completes the block
+		problems = append(problems, fmt.Sprintf("grounding-missing: the log ends with %d LOG entries and no grounding", sinceGrounding))
+	}
 	// every call: START then COMPLETE with the matching outcome, among the new entries
 	newEntries := entries
 	for ci, c := range calls {
@@ -274,8 +278,8 @@ func init() {
 			prefill int
 			menu    []string
 		}{
-			// 1 genesis + 2*497 = 995 entries (994 LOG): the 1000th LOG entry falls into the window
-			"boundary1/3threads": {497, []string{"create", "head-missing", "list"}},
+			// 1 genesis + 2*498 = 997 entries (996 LOG): the 1000th LOG entry falls into the window
+			"boundary1/3threads": {498, []string{"create", "head-missing", "list"}},
 			"boundary1/4threads": {497, []string{"create", "head-missing", "list", "put"}},
 			"boundary2/3threads": {997, []string{"create", "head-missing", "put"}},
 			"far/2threads":       {3, []string{"create", "head-missing"}},
